@@ -10,8 +10,9 @@ from .common import coq_z, coq_list
 # (names and job ids are ORDER BY keys).
 
 
-def s_id(i): return f"ev{i:06d}"
-def s_job(i): return f"job{i:06d}"
+# ids carry upper-case letters (B3 / .NET style hex ids do): a normalisation that touches only some of the id columns shows
+def s_id(i): return f"Ev{i:06d}"
+def s_job(i): return f"Job{i:06d}"
 # workflow names: byte order == index order (ORDER BY job_name); the first six differ pairwise only in letter case
 _NAMES = ["Billing", "Checkout", "Orders", "billing", "checkout", "orders"]
 
@@ -27,6 +28,13 @@ def s_app(i): return f"app{i}"
 
 def un(s: str) -> int:
     return int("".join(ch for ch in s if ch.isdigit()))
+
+
+def un_strict(s: str, fmt) -> int:
+    """decode an id written by `fmt`; a string that is not byte for byte what `fmt` writes (e.g. case-folded) decodes to a
+    number no generator uses, so that it cannot pass for the original"""
+    n = un(s)
+    return n if fmt(n) == s else 800000 + n
 
 
 def to_otel(ev):
@@ -69,9 +77,9 @@ def read_tables(path: str):
             hashes = []
     finally:
         con.close()
-    evs = [dict(id=un(r[0]), par=(0 if r[1] == "" else un(r[1])) if r[1] is not None else None, job=un(r[2]), name=un_name(r[3]), ty=un(r[4]),
-                st=r[5], en=r[6], app=un(r[7])) for r in nodes]
-    return evs, [((0 if p == "" else un(p)), un(c)) for p, c in assoc], hashes
+    evs = [dict(id=un_strict(r[0], s_id), par=(0 if r[1] == "" else un_strict(r[1], s_id)) if r[1] is not None else None,
+                job=un_strict(r[2], s_job), name=un_name(r[3]), ty=un(r[4]), st=r[5], en=r[6], app=un(r[7])) for r in nodes]
+    return evs, [((0 if p == "" else un_strict(p, s_id)), un_strict(c, s_id)) for p, c in assoc], hashes
 
 
 def raw_insert(path: str, evs, assoc):
